@@ -306,9 +306,9 @@ Proof.
       rewrite count_out_cnt. f_equal. f_equal. cbn [b2n] in E. lia.
     + intros q m. rewrite find_del. destruct (N.eqb q p); [discriminate|apply gb].
     + intros q m. rewrite find_del. destruct (N.eqb q p); [discriminate|apply gr].
-    + intros R q. unfold conn. cbn [nodes]. rewrite find_del. destruct (N.eqb q p); [discriminate|].
+    + intros R q. unfold conn. cbn [nodes with_nodes]. rewrite find_del. destruct (N.eqb q p); [discriminate|].
       intros H. apply gro; auto.
-    + destruct gv as (v & A & B). exists v. split; [exact A|]. intros q. rewrite B. unfold conn. cbn [nodes].
+    + destruct gv as (v & A & B). exists v. split; [exact A|]. intros q. rewrite B. unfold conn. cbn [nodes with_nodes].
       rewrite find_del. destruct (N.eqb q p) eqn:E; [|reflexivity]. apply N.eqb_eq in E. subst q. now rewrite F.
 Qed.
 
@@ -318,3 +318,108 @@ Proof.
   intros [gl gn gs gi go gb gr gro gv]. constructor; auto.
   apply (view_reject c0 (msgs s) (conn s) p). exact gv.
 Qed.
+
+(* T7: a peer becomes reserved (reservedNode and noSlotNodes) *)
+Definition reserve (s : pset) (p : N) : pset :=
+  snd (add_noslot_pure p (with_reserved s (p :: reserved s))).
+
+Lemma f_in_other res res' q n : memN q res = memN q res' -> f_in res q n = f_in res' q n.
+Proof. unfold f_in. now intros ->. Qed.
+Lemma f_out_other res res' q n : memN q res = memN q res' -> f_out res q n = f_out res' q n.
+Proof. unfold f_out. now intros ->. Qed.
+
+Lemma G_res_change c0 s res' ns' ni no :
+  G c0 s -> (forall q, memN q ns' = memN q res') ->
+  ni = wrap32u (N.of_nat (cnt (f_in res') (nodes s))) ->
+  no = wrap32u (N.of_nat (cnt (f_out res') (nodes s))) ->
+  (ronly s = true -> forall q, conn s q = true -> memN q res' = true) ->
+  G c0 (mkPS (nodes s) ni no (max_in s) (max_out s) ns' Unlocked res' (ronly s) (pending s) (msgs s)).
+Proof.
+  intros [gl gn gs gi go gb gr gro gv] Hs Hi Ho Hro. constructor; cbn [lk nodes noslot reserved num_in num_out ronly msgs]; auto.
+Qed.
+
+Lemma G_reserve c0 s p n :
+  G c0 s -> memN p (reserved s) = false -> find_node (nodes s) p = Some n ->
+  G c0 (reserve s p) /\ fst (add_noslot_pure p (with_reserved s (p :: reserved s))) = None.
+Proof.
+  intros HG M F. pose proof HG as [gl gn gs gi go gb gr gro gv].
+  assert (MN : memN p (noslot s) = false) by now rewrite gs.
+  pose proof (cnt_ext_present (f_in (reserved s)) (f_in (p :: reserved s)) (nodes s) p n) as EI.
+  pose proof (cnt_ext_present (f_out (reserved s)) (f_out (p :: reserved s)) (nodes s) p n) as EO.
+  assert (XI : forall q m, q <> p -> f_in (reserved s) q m = f_in (p :: reserved s) q m).
+  { intros q m Hq. apply f_in_other. rewrite memN_cons. apply N.eqb_neq in Hq. now rewrite Hq. }
+  assert (XO : forall q m, q <> p -> f_out (reserved s) q m = f_out (p :: reserved s) q m).
+  { intros q m Hq. apply f_out_other. rewrite memN_cons. apply N.eqb_neq in Hq. now rewrite Hq. }
+  specialize (EI XI gn F). specialize (EO XO gn F).
+  assert (VI : f_in (p :: reserved s) p n = false) by (unfold f_in; rewrite memN_cons, N.eqb_refl; cbn; apply andb_false_r).
+  assert (VO : f_out (p :: reserved s) p n = false) by (unfold f_out; rewrite memN_cons, N.eqb_refl; cbn; apply andb_false_r).
+  assert (WI : f_in (reserved s) p n = mstate_eqb (n_st n) Ingoing) by (unfold f_in; rewrite M; apply andb_true_r).
+  assert (WO : f_out (reserved s) p n = mstate_eqb (n_st n) Outgoing) by (unfold f_out; rewrite M; apply andb_true_r).
+  rewrite VI, WI in EI. rewrite VO, WO in EO.
+  assert (SETS : forall q, memN q (p :: noslot s) = memN q (p :: reserved s)).
+  { intros q. rewrite !memN_cons. now rewrite gs. }
+  assert (RO : ronly s = true -> forall q, conn s q = true -> memN q (p :: reserved s) = true).
+  { intros R q C. rewrite memN_cons. rewrite (gro R q C). apply orb_true_r. }
+  unfold reserve, add_noslot_pure. cbn [noslot with_reserved with_noslot nodes]. rewrite MN, F.
+  destruct (n_st n) eqn:ST; cbn [mstate_eqb b2n] in EI, EO; cbn [fst snd]; (split; [|reflexivity]);
+    unfold with_in, with_out, with_noslot, with_reserved;
+    cbn [lk nodes noslot reserved num_in num_out ronly msgs max_in max_out pending];
+    rewrite gl; apply G_res_change; auto.
+  all: try (rewrite gi, count_in_cnt); try (rewrite go, count_out_cnt).
+  all: try (rewrite u32_dec_wrap by lia).
+  all: f_equal; lia.
+Qed.
+
+(* T8: a reserved peer becomes an ordinary one *)
+Definition unreserve (s : pset) (p : N) : pset :=
+  snd (remove_noslot_pure p (with_reserved s (removeN p (reserved s)))).
+
+Lemma G_unreserve c0 s p :
+  G c0 s -> memN p (reserved s) = true -> (ronly s = true -> conn s p = false) ->
+  G c0 (unreserve s p).
+Proof.
+  intros HG M RC. pose proof HG as [gl gn gs gi go gb gr gro gv].
+  assert (MN : memN p (noslot s) = true) by now rewrite gs.
+  assert (XI : forall q m, q <> p -> f_in (reserved s) q m = f_in (removeN p (reserved s)) q m).
+  { intros q m Hq. apply f_in_other. rewrite memN_removeN. apply N.eqb_neq in Hq. rewrite N.eqb_sym, Hq. reflexivity. }
+  assert (XO : forall q m, q <> p -> f_out (reserved s) q m = f_out (removeN p (reserved s)) q m).
+  { intros q m Hq. apply f_out_other. rewrite memN_removeN. apply N.eqb_neq in Hq. rewrite N.eqb_sym, Hq. reflexivity. }
+  assert (SETS : forall q, memN q (removeN p (noslot s)) = memN q (removeN p (reserved s))).
+  { intros q. rewrite !memN_removeN. now rewrite gs. }
+  assert (RO : ronly s = true -> forall q, conn s q = true -> memN q (removeN p (reserved s)) = true).
+  { intros R q C. rewrite memN_removeN. rewrite (gro R q C), andb_true_r.
+    destruct (N.eqb p q) eqn:E; [|reflexivity]. apply N.eqb_eq in E. subst q. rewrite (RC R) in C. discriminate. }
+  unfold unreserve, remove_noslot_pure. cbn [noslot with_reserved with_noslot nodes]. rewrite MN. cbn [negb].
+  destruct (find_node (nodes s) p) as [n|] eqn:F.
+  - pose proof (cnt_ext_present (f_in (reserved s)) (f_in (removeN p (reserved s))) (nodes s) p n XI gn F) as EI.
+    pose proof (cnt_ext_present (f_out (reserved s)) (f_out (removeN p (reserved s))) (nodes s) p n XO gn F) as EO.
+    assert (VI : f_in (reserved s) p n = false) by (unfold f_in; rewrite M; apply andb_false_r).
+    assert (VO : f_out (reserved s) p n = false) by (unfold f_out; rewrite M; apply andb_false_r).
+    assert (WI : f_in (removeN p (reserved s)) p n = mstate_eqb (n_st n) Ingoing)
+      by (unfold f_in; rewrite memN_removeN, N.eqb_refl; apply andb_true_r).
+    assert (WO : f_out (removeN p (reserved s)) p n = mstate_eqb (n_st n) Outgoing)
+      by (unfold f_out; rewrite memN_removeN, N.eqb_refl; apply andb_true_r).
+    rewrite VI, WI in EI. rewrite VO, WO in EO.
+    destruct (n_st n) eqn:ST; cbn [mstate_eqb b2n] in EI, EO; cbn [snd];
+      unfold with_in, with_out, with_noslot, with_reserved;
+      cbn [lk nodes noslot reserved num_in num_out ronly msgs max_in max_out pending];
+      rewrite gl; apply G_res_change; auto.
+    all: try (rewrite gi, count_in_cnt); try (rewrite go, count_out_cnt).
+    all: try (rewrite u32_inc_wrap).
+    all: f_equal; lia.
+  - cbn [snd]. unfold with_noslot, with_reserved.
+    cbn [lk nodes noslot reserved num_in num_out ronly msgs max_in max_out pending].
+    rewrite gl. apply G_res_change; auto.
+    + rewrite gi, count_in_cnt. f_equal. f_equal. apply cnt_ext_absent with (p := p); auto.
+    + rewrite go, count_out_cnt. f_equal. f_equal. apply cnt_ext_absent with (p := p); auto.
+Qed.
+
+(* frame facts about the elementary transitions *)
+Lemma u32_dec_inc x : (x < 4294967296)%N -> u32_dec (u32_inc x) = x.
+Proof.
+  intros H. unfold u32_dec, u32_inc, wrap32u. rewrite N.add_mod_idemp_l by discriminate.
+  replace (x + 1 + 4294967295)%N with (x + 1 * 4294967296)%N by lia.
+  rewrite N.mod_add by discriminate. now apply N.mod_small.
+Qed.
+Lemma wrap32u_lt x : (wrap32u x < 4294967296)%N.
+Proof. unfold wrap32u. now apply N.mod_lt. Qed.
